@@ -21,6 +21,7 @@ import (
 	"github.com/arloliu/go-secs/v2/secs1"
 	"github.com/arloliu/go-secs/v2/secs2"
 	"github.com/arloliu/go-secs/v2/verifsim/core"
+	"github.com/arloliu/go-secs/v2/verifsim/refe4"
 	"github.com/arloliu/go-secs/v2/verifsim/refhsms"
 	"github.com/arloliu/go-secs/v2/verifsim/rig"
 	"github.com/arloliu/go-secs/v2/verifsim/simnet"
@@ -340,6 +341,10 @@ func (h *harness) mangle(p *simnet.Pipe, b []byte) []byte {
 			rate = 3
 		}
 	}
+	embeds := isBlock && bytes.Contains(b, []byte("ghost|embedded"))
+	if embeds && rate > 3 {
+		rate = 3 // blocks whose payload holds an ENQ + block image are damaged more often
+	}
 	if ev.kind == "eot" && side == 0 && h.att[0] > 0 {
 		h.hostYielding = true // the host grants the line although it has requested it itself
 	} else if side == 0 && (ev.kind == "ack" || ev.kind == "nak") {
@@ -354,7 +359,21 @@ func (h *harness) mangle(p *simnet.Pipe, b []byte) []byte {
 	if h.faultsOn && h.sc.FaultRate > 0 && w.Now() >= h.quietUntil && t.Choose("fault", rate) == 0 {
 		ev.faulted = true
 		if isBlock {
-			switch t.Choose("fault", 4) {
+			kind := t.Choose("fault", 5)
+			if embeds && t.Choose("fault", 2) == 0 {
+				kind = 4
+			}
+			switch kind {
+			case 4: // the length byte corrupted to a smaller legal value: the receiver takes a short block (bad
+				// checksum) and the rest of the real block is noise it must discard before answering
+				if l := int(b[0]); l > 10 {
+					out = append([]byte(nil), b...)
+					out[0] = byte(10 + t.Choose("fault", l-10))
+					w.Fault("length-byte-shrunk")
+				} else {
+					out = nil
+					w.Fault("drop-block")
+				}
 			case 0: // one corrupted character (never the length byte)
 				out = append([]byte(nil), b...)
 				i := 1 + t.Choose("fault", len(b)-1)
@@ -552,6 +571,14 @@ func (h *harness) sender(side, s int) {
 		size := h.sc.Sizes[(side*7+s*3+i)%len(h.sc.Sizes)]
 		tok := fmt.Sprintf("m%d-%d-%d", side, s, i)
 		text := tok + "|" + strings.Repeat(string(rune('a'+(i+s)%20)), size)
+		if h.sc.FaultRate > 0 && size <= 200 && w.T.Choose("app", 3) == 0 {
+			// the payload itself contains what would read, on an idle line, as ENQ followed by a complete
+			// well-formed block addressed to the receiver: harmless inside a block — unless a receiver that
+			// has rejected a damaged block fails to discard the rest of it
+			gh := refe4.Header{Device: h.sc.Device, R: side == 1, Stream: 1, Func: 1, Num: 1, E: true, Sys: 0x7777}
+			text = tok + "|" + strings.Repeat("g", size%40) + "\x05" + string(refe4.Wire(gh, refhsms.ASCII("ghost|embedded")))
+			w.Probe("payload_embeds_enq_and_block_image")
+		}
 		// avoid ENQ (0x05) anywhere in what we control; the text is printable ASCII anyway
 		m := &msg{Tok: tok, Side: side, Sender: s, Body: refhsms.ASCII(text)}
 		m.Blocks = (len(m.Body) + 243) / 244
